@@ -18,6 +18,9 @@ context and generator output of the stated class:
   A4  both sides hash mu | w1Encode(.) of the same length and compare / emit lambda/4 bytes.
   A5  UseHint, Decompose / HighBits / LowBits and MakeHint equal their FIPS definitions on their whole
       domain (C15 engine), so the FIPS lemma UseHint(MakeHint(z, r), r) = HighBits(r + z) applies.
+  A6  key provenance: the public key derived from a private key carries that key's rho and its tr
+      (copied, or re-hashed with SHAKE256 over all PK_LEN bytes) and expands A from that rho
+      (rules D1-D4 of C11): the mu the verifier computes with a derived key is the signer's mu.
 """
 import json
 import os
@@ -32,6 +35,7 @@ import roots
 import structure as st
 import vlib
 import c06
+import c11
 import c15
 
 EXTRA = {"probe": "encodings::sig_encode|ml_dsa::verify_internal", "track_ret": "helpers::infinity_norm|Iterator::sum"}
@@ -138,6 +142,7 @@ def main(tier):
                 ret = json.loads(pr[-1]["data"]["ret"]) if pr else {}
                 ob(list(ret.get("enum", {}).keys()) == ["v0"], "A3:z-decoder-total", {"rule": "A3 BitUnpack(gamma1-1, gamma1) accepts every byte string (a+b+1 is a power of two), hence everything BitPack emitted",
                                                                                       "set": s, "variants": list(ret.get("enum", {}).keys())})
+    c11.analyse(rep, ob, tier, prefix="A6:", with_use=False)
     ksamples, kstats = c15.analyse(rep, ob, tier, {"decompose", "use_hint", "make_hint"}, prefix="A5:")
     cov = {
         "obligations": cnt[0], "discharged": cnt[1],
